@@ -11,8 +11,8 @@ CLAIMED = {
  "C01": ("parser tiling typestate over SSA with interprocedural summaries (TILE), who-may-construct check (WRAP), error-range check (ERRPOS)",
          "Structural lemma, all paths: every parse function covers the runes it consumes with children (no gap before a child or after the last child), nodes are only built through the range-recording wrapper, and explicit error ranges are in-bounds forms. Termination and per-input error positions are not decided.",
          "trusts go/ssa; the event vocabulary (next/backup/addSep/parse/addChild) is taken from pkg/parse; audit table: Compound.tilde"),
- "C02": ("who-may-write + expression-shape check on the Partial flag (PARTIAL-DEF), sibling agreement of the editor's completeness predicate (ENTER-AGREE)",
-         "Decides clause 2 (an error is marked partial only when it starts at the end of the input) and that the editor's Enter decision uses that flag or the same end-of-input test; the grammar-level clause 1 is not decided.",
+ "C02": ("who-may-write + expression-shape check on the Partial flag (PARTIAL-DEF), sibling agreement of the editor's completeness predicate (ENTER-AGREE), who-may/shape rule on the ranges handed to parser.errorp (ERROR-AT-POS)",
+         "Decides clause 2 (an error is marked partial only when it starts at the end of the input) and that the editor's Enter decision uses that flag or the same end-of-input test; of the grammar-level clause 1 only the structural part is decided: every parse error is reported at the parser's position at the report (or a constant number of bytes before it), never at a saved position or over a node's range.",
          "trusts go/types constant and object resolution"),
  "C06": ("SSA freshness (copy-on-write) dataflow with fresh-return fixpoint (FRESH); API aliasing scan (API-OPAQUE)",
          "Structural lemma, all instructions: no write in pkg/persistent/vector targets memory reachable from an existing vector, so previously obtained lists cannot change. Agreement with the array model is not decided.",
@@ -23,11 +23,11 @@ CLAIMED = {
  "C14": ("SSA freshness over the Assoc/Dissoc call tree and element-variable code (FRESH); def-use check that the head variable is set only from the Assoc/Dissoc chain (ASSOC-CHAIN)",
          "Structural lemma: element assignment/deletion reaches containers only through vals.Index/Assoc/Dissoc, none of which (nor the persistent packages under them) writes into non-fresh memory, and the head variable is rebound only to the chain's result. That exactly the addressed element changes is not decided.",
          "trusts go/ssa; user-defined Assocer implementations outside pkg/eval/vals are not followed"),
- "C17": ("interprocedural taint from script-controlled values to panic-prone operations with dominating-guard facts (PANIC-SINK); variadic-argument index check (VARIADIC-INDEX); lock-region check on writes to package-level maps (GLOBAL-MAP-WRITE) and write-under-read-lock contradiction rule (RLOCK-WRITE)",
-         "Structural necessary condition for the no-panic clause: package-level maps are written after initialisation only under a write lock and nothing is written under a read lock (unsynchronised map writes abort the process); no value chosen by the script (command arguments and options, redirection fds, input values, evaluated expressions) reaches an index, slice bound, make size, integer divisor, signed shift, unchecked type assertion or argument-panicking library call unless checks on every path establish that it is safe; audited exceptions are listed with reasons. Nil dereferences, resource exhaustion and the no-hang clause are not decided.",
+ "C17": ("interprocedural taint from script-controlled values to panic-prone operations with dominating-guard facts (PANIC-SINK); variadic-argument index check (VARIADIC-INDEX); lock-region check on writes to package-level maps (GLOBAL-MAP-WRITE) and write-under-read-lock contradiction rule (RLOCK-WRITE); length-bound check on value lists returned by the interpreter (RESULT-INDEX); nil-flow analysis from every command parameter for which argument conversion accepts $nil to its dereferences, through cells, closures and repository callees (NIL-ARG)",
+         "Structural necessary condition for the no-panic clause: package-level maps are written after initialisation only under a write lock and nothing is written under a read lock (unsynchronised map writes abort the process); no value chosen by the script (command arguments and options, redirection fds, input values, evaluated expressions) reaches an index, slice bound, make size, integer divisor, signed shift, unchecked type assertion or argument-panicking library call unless checks on every path establish that it is safe; audited exceptions are listed with reasons; a list handed back by vals.Collect or Frame.CaptureOutput is indexed only within a proven length; every command parameter that can arrive as $nil (pointer, non-empty interface, map, func) is compared with nil before it is needed, and typed variables refuse $nil. Other nil dereferences, resource exhaustion and the no-hang clause are not decided.",
          "trusts go/ssa, the curated library-sink table and the audit table (sa/internal/rules/c17.go); guard facts assume loads of the same field between a check and its use see the same value"),
- "C18": ("who-may-send ownership check on pipeline value channels (SEND-OWN), ordering/pairing on the per-form function's CFG (STOP-ORDER), literal check (SENDERR-NONNIL), def-use check of the exception slice (ALL-EXC), early-exit-before-join pattern (NO-JOIN-ON-EARLY-EXIT), who-may rule on token-limited readers (INPUT-TO-EOF)",
-         "Structural necessary conditions for the reader-gone/no-deadlock and all-exceptions clauses: value sends always watch sendStop; the reader-gone error is published before sendStop is closed; owned ports are closed and wg.Done runs exactly once per form; every form has its own exception slot; no command joins a band-draining goroutine after it may have stopped reading the other band (two known findings: only-values, only-bytes). Delivery order and exactly-once delivery are not decided.",
+ "C18": ("who-may-send ownership check on pipeline value channels (SEND-OWN), ordering/pairing on the per-form function's CFG (STOP-ORDER), literal check (SENDERR-NONNIL), def-use check of the exception slice (ALL-EXC), early-exit-before-join pattern (NO-JOIN-ON-EARLY-EXIT), who-may rule on token-limited readers (INPUT-TO-EOF), reachability rule from externalCmd.Call to value-channel operations (EXT-NO-VALUES)",
+         "Structural necessary conditions for the reader-gone/no-deadlock and all-exceptions clauses: value sends always watch sendStop; the reader-gone error is published before sendStop is closed; owned ports are closed and wg.Done runs exactly once per form; every form has its own exception slot; no command joins a band-draining goroutine after it may have stopped reading the other band (two known findings: only-values, only-bytes); running an external command touches no value channel. Delivery order and exactly-once delivery are not decided.",
          "trusts go/ssa; channel provenance is resolved through fields, locals and captured variables, not through arbitrary aliases"),
  "C19": ("dominance checks on the pipeline/chunk CFGs (CANCEL-GATE), must-check-result rule on semaphore.Acquire (ACQUIRE-CHECK), select-shape rule for timer waits (INTERRUPTIBLE-BLOCK), spawn/join pairing for every go statement (JOINED)",
          "Structural necessary conditions: no pipeline starts without testing for an interrupt, a chunk reports an interrupt before returning normally, a failed Acquire never leads to a started callback or a Release, timer waits are interruptible, every goroutine of pkg/eval and pkg/mods is joined or an audited long-lived helper. Promptness and real schedules are not decided.",
@@ -38,11 +38,11 @@ CLAIMED = {
  "C21": ("defer/dominance and pairing checks on the with/tmp/defer machinery (RESTORE-DEFER, DEFERS-RUN), loop-direction check on the restore loops (REVERSE), guarded-overwrite check on exception combination (BODY-WINS)",
          "Structural necessary conditions on every exit path: with's restores run from a defer registered before the first assignment; set() saves before Var.Set and registers the restore only on success; tmp registers through the frame's defer list; Closure.Call always runs the defer list after the body; both restore loops run last-to-first; a restore/deferred exception replaces the result only when the body's is nil. Restored values and dynamic nesting are not decided.",
          "trusts go/ssa"),
- "C22": ("dominance of module evaluation by a failed lookup of the same key (CACHE-KEY), install/execute/delete pairing on all paths of evalModule (INSTALL-PAIR), branch-shape check of relative-spec resolution (RELATIVE-BASE)",
-         "Structural necessary conditions: a module is evaluated only after its key missed in the module table and is installed under that same key before running, the importer gets the installed namespace, a failing evaluation deletes the entry on every path, relative specs resolve against the importing file's directory or the working directory. Path normalisation, plugins and concurrent imports are not decided.",
+ "C22": ("dominance of module evaluation by a failed lookup of the same key (CACHE-KEY), install/execute/delete pairing on all paths of evalModule (INSTALL-PAIR), branch-shape check of relative-spec resolution plus call-graph reachability from the compiler to os.Getwd (RELATIVE-BASE)",
+         "Structural necessary conditions: a module is evaluated only after its key missed in the module table and is installed under that same key before running, the importer gets the installed namespace, a failing evaluation deletes the entry on every path, relative specs resolve against the importing file's directory or the working directory, which is read when the import runs and not when the code is compiled. Path normalisation, plugins and concurrent imports are not decided.",
          "trusts go/ssa"),
- "C16": ("dominance of prepare/execute/global-store by the no-error edges of parse and compile (GATE), parameter-use check that compile clones its namespace (COMPILE-PURE), argument-provenance check over all compile callers (CHECK-AGREE)",
-         "Structural necessary conditions: nothing is prepared, stored into the interpreter or executed unless both parsing and compilation succeeded; compilation mutates only a clone of the namespace; evaluation and the static check compile against the same builtin and namespace views. Equality of the reported error sets for all programs is not decided.",
+ "C16": ("dominance of prepare/execute/global-store by the no-error edges of parse and compile (GATE), parameter-use check that compile clones its namespace (COMPILE-PURE), argument-provenance check over all compile callers and backward slice of what a static check returns (CHECK-AGREE)",
+         "Structural necessary conditions: nothing is prepared, stored into the interpreter or executed unless both parsing and compilation succeeded; compilation mutates only a clone of the namespace; evaluation and the static check compile against the same builtin and namespace views, and a static check reports the compilation it has just done, not a remembered answer. Equality of the reported error sets for all programs is not decided.",
          "trusts go/ssa"),
  "C08": ("sibling agreement between Equal and Hash implementations: receiver-field subset check per type (EH-PAIR), per-case checks inside vals.Hash - zero normalisation, commutative and identical map/field-map combiners (EH-CASE), case-order consistency (EH-ORDER)",
          "Structural necessary condition for 'eq implies same hash', type by type: fields hashed are fields compared, address hashes only with identity equality, +0/-0 hash alike, eq maps and field maps hash alike regardless of iteration order. That the hash map honours hashes is C07's business and is not decided here.",
@@ -77,8 +77,8 @@ CLAIMED = {
  "C40": ("ownership pairing for opened descriptors (OPEN-OWNED), must-call rule for returned cleanup functions on all success paths (CLEANUP-CALLED), close-before-overwrite dominance (REPLACE-CLOSES), spawn/join pairing (JOINED)",
          "Structural necessary conditions: every descriptor the evaluator opens is closed in place or recorded as owned by a form whose epilogue closes it; every cleanup function of a capture/pipe/file port is called or handed on on every path; a redirection closes the port it replaces; every goroutine is joined. Descriptor counts and the os.Pipe-failure path are not decided.",
          "trusts go/ssa; audited: process-lifetime /dev/null handle and black-hole drain"),
- "C42": ("constant evaluation of the open-flag table against the mode specification (FLAGS), taint-to-index check on the port table (FD-RANGE), guard check for self-duplication (DUP-SELF), ownership and close-before-overwrite rules (OPEN-OWNED, REPLACE-CLOSES), literal check for the closed port (SENDERR-NONNIL), totality of value I/O on installed ports: non-nil channel in every Port literal and closed-placeholder exclusion before every send (PORT-TOTAL)",
-         "Structural necessary conditions: each redirection mode compiles to exactly its open(2) flags, evaluated fds are range-checked on both sides before indexing or growing the port table, n>&n does not reuse a port it just closed, files opened by a redirection are owned by the form, the replaced port is closed, and n>&- installs a port whose value output raises. Actual byte routing is not decided.",
+ "C42": ("constant evaluation of the open-flag table against the mode specification (FLAGS), taint-to-index check on the port table (FD-RANGE), guard check for self-duplication (DUP-SELF), ownership and close-before-overwrite rules (OPEN-OWNED, REPLACE-CLOSES), literal check for the closed port (SENDERR-NONNIL), totality of value I/O on installed ports: non-nil channel in every Port literal and closed-placeholder exclusion before every send (PORT-TOTAL), control-dependence check of the invalid-fd decision (FD-VALID)",
+         "Structural necessary conditions: each redirection mode compiles to exactly its open(2) flags, evaluated fds are range-checked on both sides before indexing or growing the port table, n>&n does not reuse a port it just closed, files opened by a redirection are owned by the form, the replaced port is closed, n>&- installs a port whose value output raises, and whether an fd is invalid depends on the number and the table entry only, never on the state of the port found. Actual byte routing is not decided.",
          "trusts go/ssa and go/constant; flag values are read from package os for the analysed platform (thorough tier: five platforms)"),
  "C39": ("lockset dataflow over SSA with boolean-correlated path sensitivity (EVALER-LOCK, PTRVAR-LOCK); guarded-field set derived from the struct declaration (GUARDED-SET); table-free write-under-read-lock contradiction rule (RLOCK-WRITE)",
          "Structural necessary condition, all paths of all functions: every access to the interpreter's mutex-guarded fields and every dereference of a PtrVar pointer happens with the right lock held; maps do not leave the critical section; locks are balanced. Freedom from races on other state and serialisability of results are not decided.",
